@@ -270,7 +270,7 @@ func (r *c15Run) enabled() (res []c15Stim) {
 // c15Execute runs one script in a bubble.  next() returns the next stimulus
 // (ok=false: go to the final phase).  Returns the case line and whether some
 // operation never returned.
-func c15Execute(t *testing.T, cfg c15Cfg, next func(r *c15Run) (c15Stim, bool), drainAtEnd bool) (line []int64, stuck bool, r *c15Run) {
+func c15Execute(t *testing.T, cfg c15Cfg, next func(r *c15Run) (c15Stim, bool), drainAtEnd bool, onStuck func([]int64, *c15Run)) (line []int64, stuck bool, r *c15Run) {
 	synctest.Test(t, func(t *testing.T) {
 		r = &c15Run{cfg: cfg, quit: make(chan struct{}),
 			started: map[[2]int]bool{}, returned: map[[2]int]bool{}}
@@ -304,6 +304,7 @@ func c15Execute(t *testing.T, cfg c15Cfg, next func(r *c15Run) (c15Stim, bool), 
 			if !ok {
 				break
 			}
+			c15CrashNote(r, s)
 			r.apply(s)
 		}
 		r.final = true
@@ -345,6 +346,10 @@ func c15Execute(t *testing.T, cfg c15Cfg, next func(r *c15Run) (c15Stim, bool), 
 		r.mu.Unlock()
 		if !stuck {
 			close(r.quit)
+		} else if onStuck != nil {
+			// the blocked goroutines can never be released and synctest.Test would
+			// wait for them forever: hand the case out and stop here
+			onStuck(line, r)
 		}
 	})
 	return
@@ -583,23 +588,24 @@ func TestVerifC15(t *testing.T) {
 		cfg := c15GenCfg(rr, thorough)
 		budget := 10 + rr.Intn(30)
 		drain := rr.Bool()
-		line, stuck, r := c15Execute(t, cfg, c15RandomNext(rr, budget), drain)
+		// some operation never returned: record the case and stop (the monitor reports it)
+		onStuck := func(line []int64, r *c15Run) {
+			out.Case(line)
+			out.Cover("run.stuck")
+			out.Close()
+			os.Exit(1)
+		}
+		line, _, r := c15Execute(t, cfg, c15RandomNext(rr, budget), drain, onStuck)
 		out.Case(line)
 		c15Cover(out, cfg, r.labels)
 		if drain {
 			out.Cover("run.read_dry_before_close")
 		}
-		if stuck {
-			// some operation never returned: the goroutines cannot be released,
-			// record the case and stop (the monitor reports it)
-			out.Cover("run.stuck")
-			out.Close()
-			os.Exit(0)
-		}
 	}
 	if err := out.Close(); err != nil {
 		t.Fatal(err)
 	}
+	os.Remove(os.Getenv("VERIF_OUT") + ".crash")
 }
 
 func TestVerifC15Replay(t *testing.T) {
@@ -612,7 +618,7 @@ func TestVerifC15Replay(t *testing.T) {
 		t.Fatal("cannot decode VERIF_REPLAY_CASE")
 	}
 	i := 0
-	line, stuck, _ := c15Execute(t, cfg, func(r *c15Run) (c15Stim, bool) {
+	line, _, _ := c15Execute(t, cfg, func(r *c15Run) (c15Stim, bool) {
 		for i < len(stims) {
 			s := stims[i]
 			i++
@@ -623,12 +629,13 @@ func TestVerifC15Replay(t *testing.T) {
 			}
 		}
 		return c15Stim{}, false
-	}, false)
+	}, false, func(line []int64, r *c15Run) {
+		out.Case(line)
+		out.Close()
+		os.Exit(1)
+	})
 	out.Case(line)
 	out.Close()
-	if stuck {
-		os.Exit(0)
-	}
 }
 
 var c15StackBuf = make([]byte, 1<<20)
@@ -700,4 +707,34 @@ func TestVerifC15Debug(t *testing.T) {
 		sub.Close()
 		c15Settle()
 	})
+}
+
+// c15CrashNote records, before every stimulus, the case as it would read if
+// this stimulus made the process die with an unrecoverable panic in one of
+// the bus's own goroutines (send on closed channel, unlock of unlocked
+// mutex): labels so far + the stimulus + a panic label.  checks/c15.py
+// appends $VERIF_OUT.crash to the cases when the test binary crashed.
+func c15CrashNote(r *c15Run, s c15Stim) {
+	p := os.Getenv("VERIF_OUT")
+	if p == "" || s.kind == 6 {
+		return
+	}
+	r.mu.Lock()
+	labels := append([][4]int64{}, r.labels...)
+	r.mu.Unlock()
+	if s.kind == 0 {
+		labels = append(labels, [4]int64{0, int64(s.a), int64(s.b), 0})
+	} else {
+		labels = append(labels, [4]int64{2, int64(s.a), 0, 0})
+	}
+	labels = append(labels, [4]int64{4, 0, 0, 0})
+	var sb strings.Builder
+	for i, v := range c15Encode(r.cfg, labels) {
+		if i > 0 {
+			sb.WriteByte(' ')
+		}
+		fmt.Fprintf(&sb, "%d", v)
+	}
+	sb.WriteByte('\n')
+	os.WriteFile(p+".crash", []byte(sb.String()), 0o644)
 }
